@@ -174,7 +174,7 @@ class DictDecoder:
         params = data["value"]
 
         generic = self.context.class_type.derived_element
-        self.verify_xsi_type(xsi_type)
+        self.verify_derived_names(qname, xsi_type)
 
         if clazz is generic:
             real_clazz: type[T] | None = None
@@ -386,7 +386,7 @@ class DictDecoder:
         xsi_type = data["type"]
         params = data["value"]
 
-        self.verify_xsi_type(xsi_type)
+        self.verify_derived_names(qname, xsi_type)
 
         if var.elements:
             choice = var.find_choice(qname)
@@ -416,8 +416,11 @@ class DictDecoder:
         return generic(qname=qname, value=value, type=xsi_type)
 
     @classmethod
-    def verify_xsi_type(cls, xsi_type: Any) -> None:
-        """Verify the type of a derived element is a qualified name or empty."""
+    def verify_derived_names(cls, qname: Any, xsi_type: Any) -> None:
+        """Verify the names of a derived element are strings or empty."""
+        if qname is not None and not isinstance(qname, str):
+            raise ParserError(f"Invalid qname `{qname}`")
+
         if xsi_type is not None and not isinstance(xsi_type, str):
             raise ParserError(f"Invalid xsi:type `{xsi_type}`")
 
